@@ -20,14 +20,14 @@ PROP = {'gen': [],
                'contract, i.e. with output queued and a peer that does not read, poll(None) does not return a key, a Resize or a quit error until the peer '
                'reads (proved: C17_key_waits_for_the_flush_example); a returning poll returns the oldest event (FIFO), a flagged termination signal makes the iteration return an '
                'error, every returning path of dispose restores the saved line settings (unless the tty is gone) and has queued the '
-               'closing sequence, which is delivered whenever the tty accepts the slice in the first iteration, or accepts at least one byte in each of '
+               'closing sequence - also with the debugging copy of the output (duplicate_output) as a component of dispose, for every sequence of Ok/Err results of the copy in the polls of the wait (a failure is modelled at the first write step of a poll) - which is delivered whenever the tty accepts the slice in the first iteration, or accepts at least one byte in each of '
                '|slice in flight ++ closing| + 2 iterations of the first poll with no wake request interfering (short writes). The model is tied to the code by scripted pty sessions whose poll results, restored '
                'settings and closing sequence it predicts. Real preemption inside system calls, signal latency and wall-clock bounds '
                'are not exhibited by the model.',
  'level_note': 'proof of the modelled state machine + scripted correspondence; partial. Trusted: Coq kernel + vm_compute; hand-written '
                'model IO/PollLoop.v; assumption select_level_triggered (select reports exactly the descriptors that are ready when it '
                'is called); signal-hook semantics as read from its source (pipe drained, flags in signal-number order); the decoder is '
-               'abstracted to tokens (C02/C03). Defects found and fixed: de62e95, 68e120b, 1cf853f+afe2796 (wake only), adc719b, ab83088, 58259f6, e293376 (escape sequence resize '
+               'abstracted to tokens (C02/C03). Defects found and fixed: de62e95, 68e120b, 1cf853f+afe2796 (wake only), adc719b, ab83088, 58259f6, cc7dfd1 (failing copy of the output at drop), e293376 (escape sequence resize '
                'mode, which the model does not cover: pty scenario only); domain assumptions: the peer eventually reads (closing sequence; every event other '
                'than Wake under poll(None) with output queued). Timing checks of the pty sessions allow scripted wait * 1.25 + 250 ms; a late session is run again (twice at most, 20 s budget) and, when a timing probe shows the host is overloaded, judged by order and content of the poll results, the 2 s watchdog and the restored settings only. No axioms.',
  'technique': 'Coq proof (invariants of a transition system under arbitrary schedules) + scripted pty correspondence; partial',
